@@ -440,6 +440,8 @@ type FuncContract struct {
 	Inline    bool
 	Held      []string // mutexes held on entry: expressions like "s.mu"
 	Acquires  []string // mutexes held on return
+	OnLock    []ModItem // state guarded by a mutex without a lockinv: havocked when the function first locks it
+	OnLockText []string
 	Asserts   []*Clause // "assert at call Callee#k: expr"
 	GhostSets []*Clause // ghost updates
 	GhostUpdates []*GhostUpdate
@@ -490,7 +492,7 @@ func newContractSet() *ContractSet {
 }
 
 var clauseKeywords = map[string]bool{
-	"func": true, "extern": true, "requires": true, "requires_locked": true, "ensures": true, "modifies": true, "nopanic": true,
+	"func": true, "on_lock": true, "extern": true, "requires": true, "requires_locked": true, "ensures": true, "modifies": true, "nopanic": true,
 	"loop": true, "specfunc": true, "ghost": true, "ghostsum": true, "ghost_set": true, "lockinv": true, "axiom": true, "trusted": true,
 	"pure": true, "inline": true, "held": true, "acquires": true, "assert": true, "package": true, "invariant": true,
 }
@@ -658,6 +660,25 @@ func (cs *ContractSet) parseContractText(file, pkgPath string, lines []string, l
 				}
 				cur.Modifies = append(cur.Modifies, mi)
 				cur.ModText = append(cur.ModText, part)
+			}
+		case "on_lock":
+			// on_lock havoc cell f.data, mem deref(f.data): the state other threads may change until the
+			// function acquires its (invariant-less) mutex; accessed only while that mutex is held
+			if cur == nil {
+				return fmt.Errorf("%s:%d: on_lock outside func", file, it.line)
+			}
+			body := strings.TrimSpace(strings.TrimPrefix(strings.TrimSpace(rest), "havoc"))
+			for _, part := range splitTop(body, ',') {
+				part = strings.TrimSpace(part)
+				if part == "" {
+					continue
+				}
+				mi, err := parseModItem(part)
+				if err != nil {
+					return fmt.Errorf("%s:%d: %v", file, it.line, err)
+				}
+				cur.OnLock = append(cur.OnLock, mi)
+				cur.OnLockText = append(cur.OnLockText, part)
 			}
 		case "ghost_set":
 			// ghost_set x.f = expr [if cond]   (applied on return, before deferred calls run)
